@@ -124,19 +124,30 @@ def random_part(ctx, cov, d):
         kept = sorted(idx[x] for x in asm.kept_nodes(sub / "out", scn))
         obs.append({"id": k, "n": len(nodes), "edges": edges, "roots": [idx[scn["entry"]]], "kept": kept, "gc": gc, "mustkeep": []})
         metas.append((sub, args, env, nodes))
+    # binding demonstration: drop a reachable node from a copy of an observation -> TLC must flag it
+    src = next((o for o in obs if o["gc"] and len(o["kept"]) > 1), obs[0])
+    bad = dict(src, kept=[x for x in src["kept"] if x != src["roots"][0]][:-1] + src["roots"], id=-1)
+    bad["kept"] = [x for x in src["kept"] if x in src["roots"]]
+    demo_needed = src["gc"] and len(src["kept"]) > len(bad["kept"])
+    obs_all = obs + [bad]
     p = d / "obs.ndjson"
-    p.write_text("\n".join(json.dumps(o) for o in obs) + "\n")
+    p.write_text("\n".join(json.dumps(o) for o in obs_all) + "\n")
     r = tlc.run_tlc("GcObs", "mc/GcObs.cfg", workers=1, timeout=600, coverage=False, env={"OBS": str(p)},
                     jvm_opts=["-Xss1g"])
     import re
     m = re.search(r'"OBS-COUNT", (\d+)', r.out)
-    if not m or int(m.group(1)) != len(obs):
+    if not m or int(m.group(1)) != len(obs_all):
         raise ToolError(f"GcObs did not evaluate the observations:\n{r.out[-2000:]}")
     bad = re.search(r'"OBS-BAD", \{([^}]*)\}', r.out)
     bad_idx = [int(x) for x in bad.group(1).split(",") if x.strip()] if bad else None
     if bad_idx is None:
         raise ToolError("GcObs output unparsable")
+    if demo_needed and len(obs_all) not in bad_idx:
+        raise ToolError("binding demonstration failed: observation with a dropped reachable node was not flagged by GcObs")
+    cov["binding_demo"] = "observation with dropped reachable node flagged"
     for i in bad_idx:
+        if i > len(obs):
+            continue
         sub, args, env, nodes = metas[i - 1]
         o = obs[i - 1]
         ctx.verdict.report("reachable-section-dropped:random-graph",
